@@ -11,7 +11,7 @@ import gen
 import p_poly as pp
 
 ORDERS = [None, [1], [2], [3], [4], [5], [1, 2, 3, 4, 5], [2, 1], [5, 4, 3, 2, 1], [3, 1, 2]]
-WIRINGS = ["independent", "cascade", "cascade_rev", "shared_inputs", "feedback", "cascade2"]
+WIRINGS = ["independent", "cascade", "cascade_rev", "shared_inputs", "feedback", "cascade2", "cascade_onesided"]
 
 
 # ------------------------------------------------------------------ generators
@@ -43,6 +43,8 @@ def gen_pair(rng, wiring=None):
         i1, o1, i2, o2 = ["x"], ["y"], ["y"], ["v"]
         if rng.random() < 0.4:
             i2 = ["y", "u"]
+    elif wiring == "cascade_onesided":
+        i1, o1, i2, o2 = ["x"], ["y"], ["y", "u"], ["v"]
     elif wiring == "cascade2":
         i1, o1, i2, o2 = ["x", "w"], ["y", "z"], ["y", "z"], ["v"]
     elif wiring == "shared_inputs":
@@ -75,6 +77,15 @@ def gen_pair(rng, wiring=None):
         if conn and rng.random() < 0.5:
             # several consumer assumptions over the connected variable (each could "help" refine the other)
             c2["a"] = c2["a"] + _terms(rng, i2, rng.randint(1, 2), p, special=conn, need=conn)
+    if wiring == "cascade_onesided":
+        # the producer bounds its output from one side only; the consumer has several assumptions over the connected
+        # variable, so each could only be refined "with the help of" its siblings (which would be circular)
+        sgn = rng.choice([1, -1])
+        onesided = [t for t in c1["g"] if "y" in t[0] and t[0]["y"] * sgn > 0]
+        c1["g"] = onesided or c1["g"][:1]
+        c2["a"] = _terms(rng, i2, rng.randint(2, 3), p, special=conn, need=conn)
+        if rng.random() < 0.5:
+            c1, c2 = c2, c1
     if wiring == "cascade_rev":
         c1, c2 = c2, c1
     return wiring, c1, c2
